@@ -114,20 +114,37 @@ func (c *canonizer) node(n ast.Node) {
 			}
 			c.b.WriteString("bin" + x.Op.String() + " (")
 			return true
+		case *ast.ParenExpr:
+			// parentheses carry no meaning of their own
+			c.node(x.X)
+			return false
 		case *ast.IfStmt:
 			// `if !c { A } else { B }` is rendered as `if c { B } else { A }`
-			if u, ok := ast.Unparen(x.Cond).(*ast.UnaryExpr); ok && u.Op == token.NOT && x.Else != nil {
+			if cond, neg := stripNot(x.Cond); neg && x.Else != nil {
 				if eb, ok := x.Else.(*ast.BlockStmt); ok {
 					c.b.WriteString("IfStmt (")
 					if x.Init != nil {
 						c.node(x.Init)
 					}
-					c.node(u.X)
+					c.node(cond)
 					c.node(eb)
 					c.node(x.Body)
 					c.b.WriteString(") ")
 					return false
 				}
+			} else if cond != ast.Unparen(x.Cond) {
+				// an even number of negations: render the bare condition
+				c.b.WriteString("IfStmt (")
+				if x.Init != nil {
+					c.node(x.Init)
+				}
+				c.node(cond)
+				c.node(x.Body)
+				if x.Else != nil {
+					c.node(x.Else)
+				}
+				c.b.WriteString(") ")
+				return false
 			}
 			c.b.WriteString("IfStmt (")
 			return true
@@ -210,4 +227,19 @@ func firstDiff(a, b string) string {
 		return strings.Join(strings.Fields(s), " ")
 	}
 	return fmt.Sprintf("…%s ≠ …%s", clean(a[lo:ha]), clean(b[lo:hb]))
+}
+
+// stripNot removes leading negations (and parentheses) from a condition and
+// reports whether an odd number was removed.
+func stripNot(e ast.Expr) (ast.Expr, bool) {
+	neg := false
+	for {
+		e = ast.Unparen(e)
+		u, ok := e.(*ast.UnaryExpr)
+		if !ok || u.Op != token.NOT {
+			return e, neg
+		}
+		neg = !neg
+		e = u.X
+	}
 }
